@@ -13,7 +13,7 @@ def main():
     except pl.Broken as b:
         print("setup: ", b.obligation, b.detail[-3000:])
         return 1
-    print("setup: prepared", {k: round(v, 1) for k, v in t.items()})
+    print("setup: prepared", {k: (round(v, 1) if isinstance(v, float) else v) for k, v in t.items()})
     mods = sorted("QtyModel.Props." + os.path.basename(p)[:-5]
                   for p in glob.glob(os.path.join(pl.LEAN, "QtyModel/Props/*.lean")))
     ok, out = pl.lake_build(mods)
